@@ -1,4 +1,5 @@
 import Texel.Proofs.Route3
+import Texel.Proofs.GenArith
 import Texel.Proofs.NoCollapse
 /-! # C02 — each edge is routed through exactly the hot pixels it meets
 
